@@ -884,6 +884,17 @@ func (w *clientWorld) evaluate(res verifhook.Result, bubblePanic string) {
 			o.Inconclusive = true // retry value beyond 10^12 ms: outside the properties' bounds
 			return
 		}
+		limit := defaultMaxEvent
+		if w.bufSize > limit {
+			limit = w.bufSize
+		}
+		if whole := RefInterpret(a.stream, last, true); whole.MaxSpan >= limit-8 {
+			// an event that reaches the scanner's limit is rejected with ErrTooLong and what follows
+			// it is never parsed: that is C20's territory and would blur every oracle of this world
+			o.Inconclusive = true
+			o.probe("stream with an event at the buffer limit (left to C20)")
+			return
+		}
 		evs := a.ref.Events
 		clean := a.endKind == 0 && a.delivered == len(a.stream) && a.cancelledAt < 0
 		if a.ref.FlushedAtEOF && !clean {
